@@ -387,7 +387,11 @@ func (c *Ctx) checkTaskProvenance(f *ssa.Function, base ssa.Value, fn, construct
 		c.unk(fn, construct, pos, "validated task value not identified")
 		return
 	}
-	lg := c.F.Anchors["loadGraph"]
+	lgA, reA := c.F.Anchors["loadGraph"], c.F.Anchors["replayEvents"]
+	lg := lgA
+	fromLoaded := func(v ssa.Value) bool {
+		return (lgA != nil && valueFromCallTo(v, lgA)) || (reA != nil && valueFromCallTo(v, reA))
+	}
 	type item struct {
 		v ssa.Value
 		d int
@@ -415,14 +419,14 @@ func (c *Ctx) checkTaskProvenance(f *ssa.Function, base ssa.Value, fn, construct
 			}
 		case *ssa.Extract:
 			if lk, ok := x.Tuple.(*ssa.Lookup); ok {
-				if _, n, ok := fieldLoad(lk.X); ok && n == "Tasks" && lg != nil && valueFromCallTo(lk.X, lg) {
+				if _, n, ok := fieldLoad(lk.X); ok && n == "Tasks" && lg != nil && fromLoaded(lk.X) {
 					okN++
 					continue
 				}
 			}
 			bad = "task comes from " + c.canon(v)
 		case *ssa.Lookup:
-			if _, n, ok := fieldLoad(x.X); ok && n == "Tasks" && lg != nil && valueFromCallTo(x.X, lg) {
+			if _, n, ok := fieldLoad(x.X); ok && n == "Tasks" && lg != nil && fromLoaded(x.X) {
 				okN++
 				continue
 			}
